@@ -201,7 +201,7 @@ def signature(draw, u):
         else:
             t = ["struct", "St1", [None]]
         params.append(["p%d" % i, t])
-    rk = draw(st.sampled_from(["ref0", "refA", "refA", "boxA", "st1", "slice", "optrefA", "resbox", "resref", "st2", "boxAB", "optst1", "reserr", "reserrst"]))
+    rk = draw(st.sampled_from(["ref0", "refA", "refA", "boxA", "st1", "slice", "optrefA", "resbox", "resref", "st2", "boxAB", "optst1", "reserr", "reserrst", "slicep", "slicep"]))
     r1, r2 = draw(pick), draw(pick)
     if rk == "ref0":
         ret = ["ref", r1, "Op", []]
@@ -215,6 +215,8 @@ def signature(draw, u):
         ret = ["opt", ["struct", "St1", [r1]]]
     elif rk == "slice":
         ret = ["slice", r1, draw(st.sampled_from(["[u8]", "str"]))]
+    elif rk == "slicep":
+        ret = ["slice", r1, draw(st.sampled_from(["[u8]", "[f64]", "[u16]"]))]       # primitive slices: zero-copy views in Python
     elif rk == "optrefA":
         ret = ["optref", r1, "OpA", [r2]]
     elif rk == "resbox":
@@ -734,6 +736,36 @@ def backend_body(art, work, acc, case):
         if acc.full():
             return
         u, sigs = case
+        # nanobind hands primitive slices back as zero-copy views: a returned `&'a [T]` needs its keep_alive as well
+        nsl = [s for s in sigs if s["ret"][0] == "slice" and s["ret"][2] != "str" and not any("static" in ty_lifetimes(t) for _, t in s["params"]) and "static" not in ty_lifetimes(s["ret"])
+               and not unspelled_self(u, s) and not any(t[0] in ("optstruct", "optslice") for _, t in s["params"])]
+        if nsl:
+            entry = os.path.join(work, "libn.rs")
+            open(entry, "w").write(bridge_source(u, nsl))
+            r = tool.run_backend(art, "nanobind", entry, os.path.join(work, "out-nanobind-slices"))
+            if not r.ok:
+                acc.labels["nanobind-slices:%s" % r.classify()] += 1
+            else:
+                texts = [open(os.path.join(dp, fn)).read() for dp, _, fns in os.walk(r.outdir) for fn in fns if fn.endswith("_ext.cpp")]
+                for i, s in enumerate(nsl):
+                    exp, _ = expected_map(s)
+                    keep = None
+                    for t_ in texts:
+                        keep = nanobind_keepalive(t_, s["self_ty"], "m%d" % i)
+                        if keep is not None:
+                            break
+                    if keep is None:
+                        acc.labels["nanobind:method-not-found"] += 1
+                        continue
+                    names = (["self"] if s["self"] else []) + [n for n, _ in s["params"]]
+                    need = set()
+                    for rlt, want in exp.items():
+                        need.update(w[0] for w in want)
+                    acc.case(["nanobind-slice", sig_text(s)], nontrivial(s), ["backend:nanobind-slice-return"], sample={"backend": "nanobind", "signature": sig_text(s), "keep_alive": sorted(keep)})
+                    missing = [n for n in sorted(need) if (names.index(n) + 1) not in keep]
+                    if missing:
+                        msg = "nanobind: a returned primitive slice is a view, yet keep_alive indices %s do not keep %s alive (arguments: %s)" % (sorted(keep), missing, names)
+                        acc.violation("%s\n%s\n--- lib.rs ---\n%s" % (sig_text(s), msg, bridge_source(u, [s])), {"universe": u, "sig": s, "kind": "backend", "backend": "nanobind"}, signature="backend|nanobind|keep_alive-slice")
         # restrict to returns that carry edges in managed languages: opaque / struct returns
         sigs = [s for s in sigs if s["ret"][0] in ("ref", "optref", "box", "struct", "result", "opt") and not any("static" in ty_lifetimes(t) for _, t in s["params"])
                 and "static" not in ty_lifetimes(s["ret"]) and not unspelled_self(u, s)]
